@@ -269,6 +269,8 @@ Definition op_specs : list (string * bexpr) :=
     ("ble.BLE.sniff_new_connection", spec_ble_can_sniff_new_connection);
     ("ble.BLE.set_bd_address", spec_ble_set_bd_address);
     ("ble.BLE.send_pdu", spec_ble_can_send);
+    ("ble.BLE.send_data_pdu", spec_ble_can_send);
+    ("ble.BLE.send_ctrl_pdu", spec_ble_can_send);
     ("dot15d4.Dot15d4.sniff_dot15d4", spec_dot15d4_can_sniff);
     ("dot15d4.Dot15d4.set_node_address", spec_dot15d4_can_set_node_address);
     ("dot15d4.Dot15d4.set_end_device_mode", spec_dot15d4_can_be_end_device);
@@ -318,6 +320,18 @@ Definition op_specs : list (string * bexpr) :=
     ("dot15d4.Dot15d4.on_ed_sample", BConst false);
     ("esb.ESB.on_jammed", BConst false) ].
 
+(** ---- argument-dependent guards: operation -> (assumption on argument tests, requirement) ----
+    A PDU with a control layer (BTLE_CTRL) must not be handed to an interface that cannot handle raw
+    PDUs (NoRawData flag), except through an HCI adapter: every entry point of the base connector
+    that reaches the transmission refuses it (UnsupportedCapability / failure) without transmitting. *)
+Definition ctrl_pdu_on_non_hci : list (string * bool) :=
+  [("BTLE_CTRL in", true); ("startswith('hci')", false)].
+
+Definition op_arg_specs : list (string * (list (string * bool) * bexpr)) :=
+  [ ("ble.BLE.send_pdu", (ctrl_pdu_on_non_hci, spec_ble_support_raw_pdu));
+    ("ble.BLE.send_data_pdu", (ctrl_pdu_on_non_hci, spec_ble_support_raw_pdu));
+    ("ble.BLE.send_ctrl_pdu", (ctrl_pdu_on_non_hci, spec_ble_support_raw_pdu)) ].
+
 (** ---- table helpers used by the generated file and the harness ---- *)
 Fixpoint assoc {A} (k : string) (l : list (string * A)) : option A :=
   match l with
@@ -353,6 +367,18 @@ Definition decide_ctor_path (it : string * gprog) : list (string * bool) :=
   match assoc (fst it) role_specs with Some r => ctor_witness_path r (snd it) | None => [] end.
 Definition decide_op_path (it : string * gprog) : list (string * bool) :=
   match assoc (fst it) op_specs with Some r => op_witness_path r (snd it) | None => [] end.
+
+Definition op_arg_req (k : string) : bexpr :=
+  match assoc k op_arg_specs with Some r => snd r | None => BConst true end.
+Definition op_arg_asm (k : string) : list (string * bool) :=
+  match assoc k op_arg_specs with Some r => fst r | None => [] end.
+
+Definition decide_op_arg (it : string * gprog) : list N :=
+  match assoc (fst it) op_arg_specs with
+  | None => [0]
+  | Some r => if checks_before_sends_op_arg (fst r) (snd r) (snd it) then [1]
+              else 2 :: env_list (op_arg_witness (fst r) (snd r) (snd it))
+  end.
 
 (** every (name, value) of the spec's numbering appears in the enum imported from the code *)
 Definition enum_consistent (gen : list (string * list (string * N))) : list (string * string) :=
